@@ -747,6 +747,20 @@ func runOne(r *ev.Run, i int) bool {
 			r.Count("runs_with_dropping_sampled_last_branch", 1)
 			continue
 		}
+		if bs.Sink == "combine" {
+			// one locked writer over two sinks: every write reaches both before the next one starts, so the
+			// two streams are the same bytes in the same order
+			a, c := e.streams[b][0](), e.streams[b][1]()
+			r.Count("combined_sink_pairs_compared", 1)
+			if !bytes.Equal(a, c) {
+				k := 0
+				for k < len(a) && k < len(c) && a[k] == c[k] {
+					k++
+				}
+				fail("combined-sinks-differ", fmt.Sprintf("branch %d (CombineWriteSyncers over two sinks): the two sinks hold different streams (%d and %d bytes, first difference at offset %d): writes by different goroutines reached them in different orders", b, len(a), len(c), k), nil)
+				return true
+			}
+		}
 		for si, rd := range e.streams[b] {
 			stream := rd()
 			where := fmt.Sprintf("branch %d (%s/%s) stream %d", b, bs.Sink, bs.Enc, si)
